@@ -217,6 +217,37 @@ def run(pid, tier, replay=None):
         chk.extra.setdefault("crash_points_materialised", {})[label] = len(list(points))
         shutil.rmtree(d, ignore_errors=True)
 
+    # ---- (c2) the miner's main loop (the real MinerWatcher.__call__: start-up, message loop, shutdown path) hands keys out too: runs that
+    #      find a block and then stop -- normally, or because storing the found block fails (disk full) -- followed by a restart of a wallet
+    #      script: the key the found block paid must not be handed out again while unused keys remain
+    from harness import minerloop, node_drv
+    from checks import node as nodechk
+    cfg_m = sk.Cfg(**nodechk.MODEL_CFG)
+    sk.apply_cfg(cfg_m)
+    keys_m = sk.Keys(6)
+    facts = []
+    for fault in (None, "flush", "save"):
+        for script in (["idle", "mine", "idle"], ["mine"], ["mine", "mine"]):
+            w_m, g_m, blocks_m, txs_m = nodechk.build_universe(cfg_m, keys_m)
+            run_m = node_drv.NodeRun(w_m, g_m, peers=["p"], tid=1, clock0=5000)
+            try:
+                run_m.deliver_block("p", blocks_m[1])
+                out_m = minerloop.run(run_m, script, fault=fault)
+                handed, unused_before = minerloop.restart_handout(out_m["wallet_dir"])
+            finally:
+                run_m.close()
+            what = "miner loop %s, storing the found block %s" % (script, "fails (%s)" % fault if fault else "succeeds")
+            facts.append({"clause": "C15:key_paid_by_a_found_block_is_handed_out_again_after_the_miner_stopped_and_a_restart",
+                          "holds": not (handed in out_m["paid_keys"] and unused_before > 1), "what": what})
+            chk.case(("minerloop", str(script), fault), nontrivial=bool(out_m["found"]))
+    if not any(True for f_ in facts):
+        return machinery_failure(pid, "miner loop runs produced no fact")
+    vf, rf = tracecheck.run("TraceFacts", facts, {}, ids=[1], workers=1, timeout=600)
+    chk.traces_validated += len(facts)
+    for (line, clause) in tlc.tagged(rf, "FINDING"):
+        chk.violation(clause, {"run": facts[line - 1]["what"]}, {"clause": clause})
+    sk.restore_cfg()
+
     # ---- (d) reported balance
     cfg = sk.Cfg(**MODEL_CFG)
     sk.apply_cfg(cfg)
